@@ -181,6 +181,10 @@ def quoteIdent (P : PyUnicode) (s : List Char) (force allowReserved allowNum : B
 
 /-! ### `edb/edgeql/codegen.py` -/
 
+/-- `param_to_str` -/
+def paramToStr (P : PyUnicode) (s : List Char) : List Char := '$' :: quoteIdent P s false true true
+
+
 /-- `_NON_PRINTABLE_RE`:
     `[\u0000-\u0008\u000B\u000C\u000E-\u001F\u007F\u0080-\u009F\n\u202A-\u202E\u2066-\u2069]` -/
 def isNonPrintableRE (c : Char) : Bool :=
